@@ -16,7 +16,7 @@ BLOB = (200, 900)
 RULE = ("Enumerated: every 8-bit pattern (quick) and every 16-bit pattern (thorough) of INT, UINT and HEX variables, eight values per command - these "
         "sub-sweeps are exhaustive. Generated (Hypothesis): one command with 1-5 variables (read-write, read-only interspersed) of all five types, widths "
         "1/2/4, buffers 1-64 bytes; 32-bit boundary patterns and random values, hex buffers with high-bit bytes, strings of length 0..data_size-1 over "
-        "0x01-0xFF minus CR with quote, backslash, LF and comma over-represented and placed first/last; capacity from 'READ text just fits' to generous; a quarter of the cases put 1-3 requests on another command in front of both the READ and the WRITE (READs that outgrow the buffer inside a long hex buffer, WRITEs rejected after 15-34 good bytes, TEST requests): neither may depend on the session's history. "
+        "0x01-0xFF minus CR with quote, backslash, LF and comma over-represented and placed first/last; capacity from 'READ text just fits' to generous; a quarter of the cases put 1-3 requests on another command in front of both the READ and the WRITE (READs that outgrow the buffer inside a long hex buffer, WRITEs rejected after 15-34 good bytes, TEST requests): neither may depend on the session's history; half of those cases end every line with CR LF. "
         "Non-trivial = the tuple contains a boundary integer pattern (0, -1, min, max, 0x80..), a buffer byte >= 0x80 or a string with a character that "
         "needs escaping; distinct by case hash.")
 ASSUMPTIONS = ["write-only variables are excluded (they are reported as zero by design, C08)",
